@@ -20,6 +20,7 @@ type lenContract struct {
 }
 
 type boundsRun struct {
+	covPairs []covPair
 	riMemo  map[*ssa.Function]bool
 	lcMemo  map[*ssa.Function]*lenContract
 	lcBusy  map[*ssa.Function]bool
@@ -41,6 +42,7 @@ func (br *boundsRun) prover(fn *ssa.Function) *bprover {
 	p.br = br
 	br.provers[fn] = p
 	p.entryFacts = append(p.entryFacts, br.callbackFacts(p)...)
+	p.entryFacts = append(p.entryFacts, p.contractEntryFacts()...)
 	return p
 }
 
